@@ -23,11 +23,15 @@ def run(ctx):
         "rule function (helpers followed to depth 4, guards accumulated from `target_flags & FLAG` tests dominating each call) is "
         "resolved to table rows, register class (mm/xmm/VEX128/VEX256 from the emitter and its prefix argument) and operand form; "
         "the minimum ISA level of that instruction form is obtained from GNU as by assembling the table's own mnemonic under "
-        "increasing -march sets (mmx < sse < sse2 < sse3 < ssse3 < sse4.1 < sse4.2 < avx < avx2); the site holds if that level is "
-        "implied by the flags (a flag implies all lower levels of the ladder; MMXEXT implies level `sse` on mm registers only). "
+        "increasing -march sets (mmx < sse < sse2 < sse3 < ssse3 < sse4.1 < sse4.2 < avx < avx2); the site holds if the flag of that "
+        "instruction's OWN level is established for the site - by the flag word(s) of the rule set(s) registering the rule or by a "
+        "dominating `target_flags & FLAG` guard - or the level is at or below the target's base requirement (the level every flag "
+        "word the target accepts includes). A higher flag does not stand in for a lower one above the base: the caller may pass any "
+        "subset (SSE4.2 without SSE4.1). MMXEXT counts as level `sse` on mm registers only. A mnemonic/register-class combination "
+        "GNU as accepts at no level is a violation of its own (no such encoding). "
         "Non-rule emitters of each backend are attributed the weakest rule-set requirement of the target. No Orc code runs.")
     rep.assumptions += ["binutils' per-extension instruction tables are the ISA reference",
-                        "a feature flag implies the lower levels of the ladder (hardware implication), except that MMXEXT (set from SSE2 or AMD MMXEXT) only implies the SSE integer extensions on mm registers",
+                        "flags are independent above the target's base level (own-flag semantics, as the property words it); at or below the base level the hardware implication between levels is trusted; MMXEXT (set from SSE2 or AMD MMXEXT) only implies the SSE integer extensions on mm registers",
                         "helper call chains deeper than 4 and indirect calls (load_constant slots) are covered by the non-rule pass"]
     oracle = IsaOracle(os.path.join(ctx.scratch, "isa"))
     total_sites = 0
@@ -125,7 +129,7 @@ def run(ctx):
                     nsite += 1
                     chain = " <- ".join(reversed(stack + (f.name,)))
                     if lvl <= have and not (lvl <= base_level or lvl in have_set) and not owner.endswith("<base>"):
-                        # "no instruction without ITS flag": the ladder would allow it, but the flag of this instruction's own level is
+                        # "no instruction without ITS flag": a higher flag is established, but the flag of this instruction's own level is
                         # established neither by the rule set(s) of the rule nor by a guard; the caller may pass any subset of flags
                         rep.violation("R-GUARD", where(f), inst + ":own-flag",
                                       "%s emits `%s` on %s registers (%s form), which needs `%s`; the flags established for this site are %s (rule set + "
